@@ -128,6 +128,9 @@ func specOf(op *spb.AFTOperation) (drv.OpSpec, error) {
 		if p.GetPopTopLabel() != nil {
 			o.X = append(o.X, [2]uint64{3, map[bool]uint64{true: 1, false: 2}[p.GetPopTopLabel().GetValue()]})
 		}
+		if len(p.GetEncapHeader()) > 0 {
+			o.X = append(o.X, [2]uint64{4, uint64(len(p.GetEncapHeader()))})
+		}
 	default:
 		o.T = "none"
 	}
@@ -136,6 +139,9 @@ func specOf(op *spb.AFTOperation) (drv.OpSpec, error) {
 	canonMembers := func(m *spb.AFTOperation) {
 		if g := m.GetNextHopGroup().GetNextHopGroup(); g != nil {
 			sort.Slice(g.NextHop, func(i, j int) bool { return g.NextHop[i].GetIndex() < g.NextHop[j].GetIndex() })
+		}
+		if h := m.GetNextHop().GetNextHop(); h != nil {
+			sort.Slice(h.EncapHeader, func(i, j int) bool { return h.EncapHeader[i].GetIndex() < h.EncapHeader[j].GetIndex() })
 		}
 	}
 	orig := proto.Clone(op).(*spb.AFTOperation)
